@@ -20,6 +20,7 @@ type splitClient struct {
 	semi     string       // constant value of TokenSemi
 	startVar types.Object
 	slices   int
+	direct   bool // the tokens are ranged over directly: for _, tok := range Scan(source)
 }
 
 // semiFact reports whether tokExpr.Kind == TokenSemi is known in st.
@@ -83,13 +84,22 @@ func (c *splitClient) PreAssign(e *Engine, st *State, lhs, rhs []ast.Expr, stmt 
 // fromTokens: tok is the value variable of a range over the Scan(source) result (or an element of it).
 func (c *splitClient) fromTokens(e *Engine, tok ast.Expr) bool {
 	o := objOf(e.Info, tok)
-	if o == nil || c.tokens == nil {
+	if o == nil {
 		return false
 	}
 	found := false
 	ast.Inspect(e.Func.Body, func(n ast.Node) bool {
-		if rs, ok := n.(*ast.RangeStmt); ok && rs.Value != nil && objOf(e.Info, rs.Value) == o && objOf(e.Info, rs.X) == c.tokens {
+		rs, ok := n.(*ast.RangeStmt)
+		if !ok || rs.Value == nil || objOf(e.Info, rs.Value) != o {
+			return true
+		}
+		if c.tokens != nil && objOf(e.Info, rs.X) == c.tokens {
 			found = true
+		}
+		// for _, tok := range Scan(source)
+		if call, ok := ast.Unparen(rs.X).(*ast.CallExpr); ok && Callee(e.Info, call) == c.scan && len(call.Args) == 1 && objOf(e.Info, call.Args[0]) == c.source {
+			found = true
+			c.direct = true
 		}
 		return true
 	})
@@ -164,7 +174,7 @@ func ruleC15(p *Program, r *Run) {
 		r.Fail("C15/provenance", fn+" engine", "-", m)
 	}
 	e.FlushSites(r)
-	r.Check(c.tokens != nil, "C15/provenance", fn+" scans its own argument", p.Pos(fd.Pos()), "tokens come from Scan(source) of the very string that is sliced", "the splitter does not obtain its tokens from Scan(source): cut offsets would not refer to the sliced string")
+	r.Check(c.tokens != nil || c.direct, "C15/provenance", fn+" scans its own argument", p.Pos(fd.Pos()), "tokens come from Scan(source) of the very string that is sliced", "the splitter does not obtain its tokens from Scan(source): cut offsets would not refer to the sliced string")
 	r.Floor("C15/provenance", 5)
 
 	// every piece is appended: the sliced values flow into append of the result
